@@ -279,7 +279,7 @@ var famTr = NewFamily("C13.transform", func(t trCase) (*Fail, bool) {
 
 func init() {
 	register("C13", "exploration", func(c *Ctx) {
-		c.Rule("complete product: 19 transforms (ROLZ/ROLZX, LZ/LZX/LZP, RANK/MTFT, PACK/DNA variants; TEXT and RLT with a fast and a slow entropy name) x shapes (detector-triggering and codec-boundary shapes) x lengths {1,2,15,16,63,64,255,256,257,1023,1024,4095,65536,200000 (+1 MiB, 4 MiB+16 for BWT/BWTS in thorough)} x dataType hints the pipeline can really leave for that block {absent, magic-derived, every value left in the context by another transform that declined on the same block}; plus forged executable headers: for 7 ELF/PE/Mach-O layouts every 2/4/8-byte field in the first 160 bytes set to each of 10 boundary values (EXE and the level presets' chains). Driven through transform.New with encode()/decode()'s context keys and buffer sizes. Oracle: no panic in either direction; written <= MaxEncodedLen; decline => the block passed on equals the input; Inverse into a buffer of exactly the decoder's size restores the block. Non-trivial = the transform did not decline")
+		c.Rule("complete product: 19 transforms (ROLZ/ROLZX, LZ/LZX/LZP, RANK/MTFT, PACK/DNA variants; TEXT and RLT with a fast and a slow entropy name) x shapes (detector-triggering and codec-boundary shapes) x lengths {1,2,15,16,63,64,255,256,257,1023,1024,4095,65536,200000 (+1 MiB, 4 MiB+16 for BWT/BWTS in thorough)}, plus a 3 MiB block dominated by one symbol (17 MiB in thorough) x dataType hints the pipeline can really leave for that block {absent, magic-derived, every value left in the context by another transform that declined on the same block}; plus forged executable headers: for 7 ELF/PE/Mach-O layouts every 2/4/8-byte field in the first 160 bytes set to each of 10 boundary values (EXE and the level presets' chains). Driven through transform.New with encode()/decode()'s context keys and buffer sizes. Oracle: no panic in either direction; written <= MaxEncodedLen; decline => the block passed on equals the input; Inverse into a buffer of exactly the decoder's size restores the block. Non-trivial = the transform did not decline")
 		lens := []int{1, 2, 3, 15, 16, 63, 64, 255, 256, 257, 1023, 1024, 4095, 4097, 65535, 65536, 65537, 200000}
 		if c.Thorough() {
 			lens = append(lens, 1<<20)
@@ -315,6 +315,18 @@ func init() {
 			return f, nt
 		})
 		fam1.Each(c, 0, func(emit func(trCase)) {
+			// blocks of 3 MiB dominated by one symbol (counts >= 2^21: frequency headers use their longest
+			// varint form), and 3 MiB of text
+			for _, v := range tvs {
+				if v.e != "NONE" {
+					continue
+				}
+				emit(trCase{T: v.t, Entropy: v.e, Shape: "dominant", Len: 3 << 20, Hint: -1})
+				if c.Thorough() {
+					emit(trCase{T: v.t, Entropy: v.e, Shape: "text", Len: 3<<20 + 5, Hint: -1})
+					emit(trCase{T: v.t, Entropy: v.e, Shape: "dominant", Len: 17<<20 + 1, Hint: -1})
+				}
+			}
 			for _, v := range tvs {
 				for _, sh := range shapes {
 					for _, n := range lens {
